@@ -396,6 +396,73 @@ def translate_conditions(src):
 
 
 # ------------------------------------------------------------------------------------
+# object protocol of ConditionBinaryOp (conditions.py) and null_condition_binary_check (utils.py)
+
+def nc_expr(e, params):
+    if isinstance(e, ast.Name) and e.id in params:
+        return f"(NCArg {params.index(e.id)})"
+    if isinstance(e, ast.Constant) and e.value is None:
+        return "NCNone"
+    if isinstance(e, ast.IfExp):
+        t = e.test
+        if not (isinstance(t, ast.Attribute) and t.attr == "is_null" and isinstance(t.value, ast.Name)
+                and t.value.id in params):
+            refuse(e, "null check test is not <arg>.is_null")
+        return f"(NCIf {params.index(t.value.id)} {nc_expr(e.body, params)} {nc_expr(e.orelse, params)})"
+    refuse(e, "null check expression")
+
+
+def translate_proto(cond_src, utils_src):
+    ut = ast.parse(utils_src)
+    fn = [n for n in ut.body if isinstance(n, ast.FunctionDef) and n.name == "null_condition_binary_check"]
+    if len(fn) != 1:
+        raise Refused("utils.null_condition_binary_check not found")
+    fn = fn[0]
+    params, _, va, kw = plain_signature(fn)
+    if len(params) != 2 or va or kw:
+        raise Refused("null_condition_binary_check signature")
+    body = [s for s in fn.body if not (isinstance(s, ast.Expr) and isinstance(s.value, ast.Constant))]
+    if len(body) != 1 or not isinstance(body[0], ast.Return):
+        raise Refused("null_condition_binary_check body")
+    nc = nc_expr(body[0].value, params)
+
+    tree = ast.parse(cond_src)
+    cls = [n for n in tree.body if isinstance(n, ast.ClassDef) and n.name == "ConditionBinaryOp"]
+    if len(cls) != 1:
+        raise Refused("ConditionBinaryOp not found")
+    cls = cls[0]
+    new = find_method(cls, "__new__")
+    nbody = [s for s in new.body if not (isinstance(s, ast.Expr) and isinstance(s.value, ast.Constant))]
+    want_new = "return null_condition_binary_check(*conditions) or super().__new__(cls)"
+    if len(nbody) == 1 and ast.unparse(nbody[0]) == want_new and new.args.vararg and new.args.vararg.arg == "conditions":
+        short = True
+    elif len(nbody) == 1 and ast.unparse(nbody[0]) == "return super().__new__(cls)":
+        short = False
+    else:
+        refuse(new, "ConditionBinaryOp.__new__ shape")
+    init = find_method(cls, "__init__")
+    ibody = [s for s in init.body if not (isinstance(s, ast.Expr) and isinstance(s.value, ast.Constant))]
+    guarded = False
+    if ibody and isinstance(ibody[0], ast.If):
+        g = ibody[0]
+        if (ast.unparse(g.test) == "null_condition_binary_check(*conditions) is not None" and not g.orelse
+                and len(g.body) == 1 and isinstance(g.body[0], ast.Return) and g.body[0].value is None):
+            guarded = True
+            ibody = ibody[1:]
+        else:
+            refuse(g, "unexpected conditional at the top of ConditionBinaryOp.__init__")
+    rest = [ast.unparse(s) for s in ibody]
+    if rest[:2] != ["super().__init__()", "self.children = conditions"]:
+        raise Refused(f"ConditionBinaryOp.__init__ body: {rest[:2]}")
+    writes = [n for n in ast.walk(init) if isinstance(n, (ast.Assign, ast.AugAssign, ast.Delete))
+              and any(isinstance(t, (ast.Attribute, ast.Subscript)) for t in (n.targets if hasattr(n, "targets") else [n.target]))]
+    if len(writes) != 1:
+        raise Refused("ConditionBinaryOp.__init__: expected exactly one attribute write (self.children)")
+    return (f"Definition cond_proto : proto := {{| pr_null_check := {nc}; pr_new_short_circuits := {E.enc_bool(short)}; "
+            f"pr_init_guarded := {E.enc_bool(guarded)} |}}.\n")
+
+
+# ------------------------------------------------------------------------------------
 
 HEADER = """(* GENERATED by harness/translate.py from {src} -- do not edit *)
 From Coq Require Import ZArith NArith List Bool String.
@@ -436,6 +503,11 @@ def main():
     text = HEADER.format(src="valida/conditions.py") + "From Valida.Gen Require CallablesGen.\n\n" + tabs
     if write_if_changed(os.path.join(GEN_DIR, "TablesGen.v"), text):
         changed.append("TablesGen.v")
+    proto = translate_proto(read("valida/conditions.py"), read("valida/utils.py"))
+    text = HEADER.format(src="valida/conditions.py, valida/utils.py").replace(
+        "From Valida Require Import Py Lang Defs.", "From Valida Require Import Py Lang Defs Cond CondHeap.") + proto
+    if write_if_changed(os.path.join(GEN_DIR, "ProtoGen.v"), text):
+        changed.append("ProtoGen.v")
     return changed
 
 
